@@ -178,8 +178,22 @@ theorem scope_of_expression {fuel : Nat} {lib : Lib} {t : Path} {r : List Var ×
     subst hsc
     exact ⟨c', q', hq', hp, hi, hw⟩
 
-example : rename [["p"], ["b", "p"], ["b", "x"]] [] (.ref [("p", [])]) = .fref ["p"] [] ∧
-    rename [["p"], ["b", "p"], ["b", "x"]] ["b"] (.ref [("p", [])]) = .fref ["b", "p"] [] := by decide
+-- an entry written one level up (`extends Base(b(start = 3))` in `M`, scope `[]`) on the leaf `b`;
+-- and the same name renamed in two scopes
+example : (∃ r, instTop 6 exLib ["M"] = .ok r ∧ ∃ v ∈ r.1, ∃ m ∈ v.binds, m.value = .num 3 ∧ m.scope = []) ∧
+    rename [["p"], ["b", "p"], ["b", "x"]] [] (.ref [("p", [])]) = .fref ["p"] [] ∧
+    rename [["p"], ["b", "p"], ["b", "x"]] ["b"] (.ref [("p", [])]) = .fref ["b", "p"] [] := by
+  refine ⟨?_, by decide, by decide⟩
+  have h : ((instTop 6 exLib ["M"]).toOption.map fun r =>
+      r.1.any fun v => v.binds.any fun m => m.value == .num 3 && m.scope == []) = some true := by decide +kernel
+  cases hr : instTop 6 exLib ["M"] with
+  | error e => rw [hr] at h; simp [Except.toOption] at h
+  | ok r =>
+    rw [hr] at h
+    simp only [Except.toOption, Option.map_some, Option.some.injEq, List.any_eq_true, Bool.and_eq_true,
+      beq_iff_eq] at h
+    obtain ⟨v, hv, m, hm, h1, h2⟩ := h
+    exact ⟨r, rfl, v, hv, m, hm, h1, h2⟩
 
 /-! ## rejections -/
 
